@@ -164,6 +164,20 @@ func (s *vStream) waitHandled(n int) {
 	s.waitFor("frame not handled", func() bool { return s.recvEntered > n })
 }
 
+// handledChan is closed once the frame pushed when recvEntered was n has been handled (or at tear-down)
+func (s *vStream) handledChan(n int) chan struct{} {
+	done := make(chan struct{})
+	go func() {
+		s.mu.Lock()
+		for s.recvEntered <= n && !s.finish {
+			s.cond.Wait()
+		}
+		s.mu.Unlock()
+		close(done)
+	}()
+	return done
+}
+
 func (s *vStream) waitIdle() {
 	s.waitFor("read loop did not start", func() bool { return s.recvEntered >= 1 })
 }
@@ -176,9 +190,13 @@ type vMembership struct {
 	mu      sync.Mutex
 	e       *vEngine
 	members map[string]bool // "account|space" (model account names)
-	armed   map[int]bool    // model stream -> stop the next positive answer for it
+	armed   map[int]bool    // model stream -> stop the next positive answer for it (first check of a subscribe)
 	atGate  chan int
 	release map[int]chan struct{}
+	// second check of the same subscribe (after remoteMu was released): parked on entry, answered after release
+	armed2   map[int]bool
+	atGate2  chan int
+	release2 map[int]chan struct{}
 }
 
 func (m *vMembership) set(acct, space string, v bool) {
@@ -198,12 +216,33 @@ func (m *vMembership) arm(model int) {
 	defer m.mu.Unlock()
 	m.armed[model] = true
 	m.release[model] = make(chan struct{})
+	m.armed2[model] = false
+}
+
+func (m *vMembership) disarm(model int) {
+	m.mu.Lock()
+	defer m.mu.Unlock()
+	m.armed[model] = false
+	m.armed2[model] = false
 }
 
 func (m *vMembership) CheckMember(ctx context.Context, spaceId string, identity crypto.PubKey) error {
 	name := m.e.acctName(identity.Account())
-	ok := m.isMember(name, spaceId)
 	model, _ := ctx.Value(vCtxStream).(int)
+	m.mu.Lock()
+	var ch2 chan struct{}
+	if model != 0 && m.armed2[model] {
+		m.armed2[model] = false
+		ch2 = make(chan struct{})
+		m.release2[model] = ch2
+	}
+	m.mu.Unlock()
+	if ch2 != nil {
+		// the second check of a subscribe: its interest is registered and tagged, remoteMu is free again
+		m.atGate2 <- model
+		<-ch2
+	}
+	ok := m.isMember(name, spaceId)
 	if model != 0 {
 		if real, has := streampool.CtxStreamId(ctx); has {
 			m.e.noteRealId(model, real)
@@ -214,6 +253,7 @@ func (m *vMembership) CheckMember(ctx context.Context, spaceId string, identity 
 	var ch chan struct{}
 	if stop {
 		m.armed[model] = false
+		m.armed2[model] = true // a further check while handling the same frame is the re-check
 		ch = m.release[model]
 	}
 	m.mu.Unlock()
@@ -260,6 +300,47 @@ func (p *vPeer) AcquireDrpcConn(context.Context) (drpc.Conn, error) {
 	return nil, errors.New("verif: relay partner unreachable")
 }
 
+// vPool wraps the engine's (real) stream pool: AddTagsCtx - the step of handleSubscribe between recording
+// the interest and the rollback - can be parked at a harness gate; everything else passes through.
+type vPool struct {
+	streampool.StreamPool
+	e       *vEngine
+	mu      sync.Mutex
+	armed   map[int]bool
+	atGate  chan int
+	release map[int]chan struct{}
+}
+
+func (p *vPool) arm(model int) {
+	p.mu.Lock()
+	defer p.mu.Unlock()
+	p.armed[model] = true
+	p.release[model] = make(chan struct{})
+}
+
+func (p *vPool) disarm(model int) {
+	p.mu.Lock()
+	defer p.mu.Unlock()
+	p.armed[model] = false
+}
+
+func (p *vPool) AddTagsCtx(ctx context.Context, tags ...string) error {
+	model, _ := ctx.Value(vCtxStream).(int)
+	p.mu.Lock()
+	stop := model != 0 && p.armed[model]
+	var ch chan struct{}
+	if stop {
+		p.armed[model] = false
+		ch = p.release[model]
+	}
+	p.mu.Unlock()
+	if stop {
+		p.atGate <- model
+		<-ch
+	}
+	return p.StreamPool.AddTagsCtx(ctx, tags...)
+}
+
 type vPeers struct{ peers []peer.Peer }
 
 func (p *vPeers) SpacePeers(context.Context, string) ([]peer.Peer, error) {
@@ -290,6 +371,7 @@ type vEngine struct {
 	opened    int
 
 	gated       bool
+	vpool       *vPool
 	hookEntered chan uint32
 	hookRelease map[uint32]chan struct{}
 	hookDone    chan uint32
@@ -375,7 +457,8 @@ func newVEngine(t testing.TB, cfg vCfg) *vEngine {
 		e.accts[n] = k
 		e.acctNames[k.SignKey.GetPublic().Account()] = n
 	}
-	e.mem = &vMembership{e: e, members: map[string]bool{}, armed: map[int]bool{}, atGate: make(chan int, 16), release: map[int]chan struct{}{}}
+	e.mem = &vMembership{e: e, members: map[string]bool{}, armed: map[int]bool{}, atGate: make(chan int, 16), release: map[int]chan struct{}{},
+		armed2: map[int]bool{}, atGate2: make(chan int, 16), release2: map[int]chan struct{}{}}
 	for _, m := range cfg.InitMember {
 		e.mem.set(m[0], m[1], true)
 	}
@@ -421,10 +504,12 @@ func newVEngine(t testing.TB, cfg vCfg) *vEngine {
 	if !cfg.PlainPool {
 		// same pool implementation, same handler; only the close hook is wrapped by a gate
 		_ = e.svc.pool.Close(context.Background())
-		e.svc.pool = streampool.NewStreamPool(e.svc, e.svc.cfg.streamPoolConfig(), streampool.WithStreamCloseHook(e.gatedHook))
-		if err := e.svc.pool.Run(context.Background()); err != nil {
+		real := streampool.NewStreamPool(e.svc, e.svc.cfg.streamPoolConfig(), streampool.WithStreamCloseHook(e.gatedHook))
+		if err := real.Run(context.Background()); err != nil {
 			t.Fatal(err)
 		}
+		e.vpool = &vPool{StreamPool: real, e: e, armed: map[int]bool{}, atGate: make(chan int, 16), release: map[int]chan struct{}{}}
+		e.svc.pool = e.vpool
 		e.gated = true
 	}
 	if cfg.Role == "client" {
@@ -647,6 +732,8 @@ type vViews struct {
 	TrieLen   map[string]int
 	// records of pool ids the harness does not know
 	UnknownRecs int
+	// remoteMu was held (a subscribe parked at AddTagsCtx): the engine part could not be read
+	Locked bool
 }
 
 func vTrieRefs(t *patternTrie) map[string]int {
@@ -702,7 +789,10 @@ func (e *vEngine) views(universe []vTag) vViews {
 	for m, id := range e.realIds {
 		byReal[id] = m
 	}
-	e.svc.remoteMu.Lock()
+	if !e.svc.remoteMu.TryLock() {
+		v.Locked = true
+		return v
+	}
 	for id, rec := range e.svc.streams {
 		m, ok := byReal[id]
 		if !ok {
@@ -747,7 +837,27 @@ func (e *vEngine) finish() {
 			close(ch)
 		}
 	}
+	for m, ch := range e.mem.release2 {
+		e.mem.armed2[m] = false
+		select {
+		case <-ch:
+		default:
+			close(ch)
+		}
+	}
 	e.mem.mu.Unlock()
+	if e.vpool != nil {
+		e.vpool.mu.Lock()
+		for m, ch := range e.vpool.release {
+			e.vpool.armed[m] = false
+			select {
+			case <-ch:
+			default:
+				close(ch)
+			}
+		}
+		e.vpool.mu.Unlock()
+	}
 	e.hookMu.Lock()
 	for id, ch := range e.hookRelease {
 		close(ch)
